@@ -169,7 +169,28 @@ PW_ENC = {"timestamp": "EV.timestamp", "duration": "EV.duration.total_seconds()"
 PW_DEC = {"id": "self.id", "timestamp": "self.timestamp", "duration": "float(self.duration)", "data": "json.loads(self.datastr)"}
 
 
+def _peewee_field_facts(prog, rep, rule):
+    """column declarations of EventModel that change what is stored: a DecimalField with auto_round quantises every
+    written duration to decimal_places (default 5 = 10 microseconds); the property needs microseconds"""
+    ci = prog.cls("EventModel")
+    for name, decl in ci.attrs.items():
+        if not isinstance(decl, ast.Call):
+            continue
+        kw = {k.arg: k.value for k in decl.keywords if k.arg}
+        ftype = norm(decl.func).split(".")[-1]
+        if name == "duration":
+            ar = kw.get("auto_round")
+            rounding_on = ar is not None and not (isinstance(ar, ast.Constant) and not ar.value)
+            places = kw.get("decimal_places")
+            pv = places.value if isinstance(places, ast.Constant) and isinstance(places.value, int) else (5 if places is None else None)
+            ok = not (ftype == "DecimalField" and rounding_on and (pv is None or pv < 6)) and ftype in ("DecimalField", "FloatField", "DoubleField")
+            rep.check(ok, rule, "EventModel", "duration column", f"{norm(decl)} stores the written seconds without quantising them above a microsecond", f"`duration = {norm(decl)}` quantises every stored duration (auto_round rounds to {pv if pv is not None else '?'} decimal places of a second; an IntegerField / CharField truncates or re-formats): durations no longer come back to the microsecond", ci.mod.relpath + f":{decl.lineno}", expected="DecimalField() / a float column", found=norm(decl))
+        if name == "timestamp":
+            rep.check(ftype == "DateTimeField" and "formats" not in kw, rule, "EventModel", "timestamp column", norm(decl), f"`timestamp = {norm(decl)}`: not a plain DateTimeField (a custom format list or another column type changes how instants are stored and compared)", ci.mod.relpath + f":{decl.lineno}")
+
+
 def codec_peewee(prog, rep, rule="CODEC"):
+    _peewee_field_facts(prog, rep, rule)
     fe = prog.func("EventModel.from_event")
     rep.unit("functions", fe.qname)
     calls = [c for c in walk_own(fe.node) if isinstance(c, ast.Call) and isinstance(c.func, ast.Name) and c.func.id == "cls"]
